@@ -279,6 +279,7 @@ pub fn run(cx: &mut Cx) {
         "depend/colons-3/rejected",
         "workload/real_names",
         "workload/decorated",
+        "path/relatives",
         "path/equal-values/hash-and-order",
         "depend_words/fields-2",
         "depend_words/fields-3",
